@@ -90,14 +90,14 @@ def transport_id(rng, kind=None):
         return bytes(b), dict(tpid_format=0, protocol_id=0xA, routing_id=name)
     # iSCSI: ADDITIONAL LENGTH (bytes 2-3) counts what follows; the name is null-terminated and null-padded to a
     # multiple of four, at least 20 bytes
-    n = rng.choice([1, 2, 3, 4, 15, 16, 17, 18, 19, 20, 21, 30, 31, 32, 33])
+    n = rng.choice([1, 2, 3, 4, 15, 16, 17, 18, 19, 20, 21, 30, 31, 32, 33, 150, 188, 204])
     alphabet = "abcdefghijklmnopqrstuvwxyz0123456789.-"
     if rng.random() < 0.15:
         alphabet += "éü中"                       # iSCSI names are UTF-8 (RFC 3722): lengths count bytes, not characters
     name = "iqn.2001-04.com.ex:" + "".join(rng.choice(alphabet) for _ in range(n))
     exp = dict(protocol_id=5, iscsi_name=name)
     if kind == "iscsi1":
-        isid = "%012x" % rng.randrange(1 << 48)
+        isid = rng.choice(["%012x", "%012X", "%x"]) % rng.randrange(1 << 48)          # hex constants may use capitals (RFC 3720)
         s = name + ",i,0x" + isid
         exp.update(tpid_format=1, iscsi_initiator_session_id=isid)
     else:
